@@ -175,7 +175,7 @@ def npc(pvalues, distr, combine="fisher", plus1=True):
     combined_stat_distr = [0] * B
     pvalues_from_distr = np.zeros((B, n))
     for j in range(n):
-        pvalues_from_distr[:, j] = (B - rankdata(distr[:, j], method="min") + 1 + 2*plus1)/(plus1+B)
+        pvalues_from_distr[:, j] = (B - rankdata(distr[:, j], method="min").astype(float) + 1 + 2*plus1)/(plus1+B)
     if combine == "liptak":
         toobig = np.where(pvalues_from_distr >= 1)
         pvalues_from_distr[toobig] = 1 - np.finfo(float).eps
